@@ -969,8 +969,21 @@ func c16Codes(c *Ctx) {
 		for _, s := range flow.Calls(fn, func(name string) bool {
 			return strings.HasPrefix(name, "(*"+jsPkg+"handler).return") && strings.HasSuffix(name, "ReqError")
 		}) {
+			if len(s.Args) < 5 {
+				continue
+			}
 			pc := e.PathCond(s.Instr.Block(), nil)
-			if !flow.Implies(pc, notFound) || len(s.Args) < 5 {
+			if !flow.Implies(pc, notFound) {
+				// one call for every failure, with the code chosen beforehand (`code := Other; if err == ErrDevEUINotFound
+				// { code = UnknownDevEUI }`): the argument, specialised to the not-found case, must be UnknownDevEUI
+				nf1 := flow.Bin("==", errT, flow.Global(jsPkg+"ErrDevEUINotFound"))
+				nf2 := flow.Bin("!=", errT, flow.Global(jsPkg+"ErrDevEUINotFound"))
+				sp := s.Args[4].Specialise(nf1, true).Specialise(nf2, false)
+				if sp.Equal(s.Args[4]) {
+					continue // does not depend on that comparison
+				}
+				n++
+				checkTerm(c, rule, fmt.Sprintf("%s/not-found#%d", fnKey(fn), n), ipos(c, s.Instr), "result code when the device lookup returns ErrDevEUINotFound", sp, flow.ConstString("UnknownDevEUI"))
 				continue
 			}
 			n++
